@@ -172,8 +172,7 @@ Fixpoint rok (e : expr) : Prop :=
   match e with
   | Repeat c lo hi _ => (lo <= hi)%N /\ rok c
   | Concat es | Alt es => (fix go (l : list expr) : Prop := match l with [] => True | x :: r => rok x /\ go r end) es
-  | LookAround c la => rok c /\ lb_alt_const c la
-  | Group c | AtomicGroup c => rok c
+  | Group c | LookAround c _ | AtomicGroup c => rok c
   | Conditional _ _ _ => False        (* stage 1: see DESIGN.md, finding F-condleak *)
   | _ => True
   end.
@@ -1394,8 +1393,24 @@ Definition lb_found (c : expr) (g ix : nat) (caps0 : list val) : option sst :=
   | _ => try_alt c g
   end.
 
+Definition lb_split (c : expr) (g ix : nat) (caps0 : list val) : list sst :=
+  let try_alt (a : expr) (ga : nat) : option sst :=
+    first_some (fun j => first_ending (sem cx a fuel ga (j, caps0)) ix) (backs cx ix ix) in
+  match c with
+  | Alt es =>
+      (fix go (g : nat) (l : list expr) : list sst :=
+         match l with
+         | [] => []
+         | x :: r => match try_alt x g with Some s => [(ix, snd s)] | None => [] end ++ go (g + ngroups x) r
+         end) g es
+  | _ => []
+  end.
+
 Lemma sem_lb c g ix caps0 : sem cx (LookAround c LookBehind) fuel g (ix, caps0) =
-  match lb_found c g ix caps0 with Some s' => [(ix, snd s')] | None => [] end.
+  match lb_found c g ix caps0 with
+  | Some s' => if is_alt c && negb (const_size c) then lb_split c g ix caps0 else [(ix, snd s')]
+  | None => []
+  end.
 Proof. reflexivity. Qed.
 Lemma sem_lbn c g ix caps0 : sem cx (LookAround c LookBehindNeg) fuel g (ix, caps0) =
   match lb_found c g ix caps0 with Some _ => [] | None => [(ix, caps0)] end.
@@ -1466,7 +1481,7 @@ Proof.
   intros Hw Hz Hok Hc. destruct st as [ix caps0]. destruct la; cbn [la_f fst snd].
   - reflexivity.
   - reflexivity.
-  - rewrite sem_lb, lb_found_const by auto. destruct (goback cx ix (min_size c) ix); auto.
+  - rewrite sem_lb, lb_found_const by auto. rewrite Hc, andb_false_r. destruct (goback cx ix (min_size c) ix); auto.
     destruct (sem cx c fuel g (ix0, caps0)); reflexivity.
   - rewrite sem_lbn, lb_found_const by auto. destruct (goback cx ix (min_size c) ix); auto.
     destruct (sem cx c fuel g (ix0, caps0)); reflexivity.
@@ -1503,6 +1518,7 @@ Proof.
     unfold la_pos, la_neg, la_inner; rewrite !Hc; reflexivity.
 Qed.
 
+Definition is_behind (la : lookkind) : bool := match la with LookBehind | LookBehindNeg => true | _ => false end.
 Definition setix (v : vst) (j : nat) : vst := {| v_ix := j; v_sl := v_sl v; v_aux := v_aux v |}.
 
 (* the body of a look-around, after the GoBack of a look-behind *)
@@ -1693,10 +1709,304 @@ Proof.
   apply neg_wrap; auto.
 Qed.
 
-Lemma seg_lookaround c la : seg_stmt c -> seg_stmt (LookAround c la).
+(* ---------- alternation / sequence layouts over any per-child compiler (look-behind split) ---------- *)
+Section GenLayout.
+Variable cf : expr -> nat -> nat -> nat -> cerr + cres.     (* child, first group, pc, next slot *)
+Variable sf : expr -> nat -> sst -> list sst.
+
+Definition cf_ok (x : expr) : Prop := forall g pc ns code ns',
+  cf x g pc ns = inr (code, ns') -> nodeleg code -> At pc code -> oke g x -> NC <= ns ->
+  2 * (g + ngroups x) <= NC -> segP pc code ns ns' (sf x g).
+
+Fixpoint galt_codes (g pc ns : nat) (l : list expr) : cerr + (list (list insn) * nat) :=
+  match l with
+  | [] => inr ([], ns)
+  | [x] => match cf x g pc ns with inl er => inl er | inr (c, ns1) => inr ([c], ns1) end
+  | x :: ((_ :: _) as r) =>
+      match cf x g (pc + 1) ns with
+      | inl er => inl er
+      | inr (c, ns1) =>
+          match galt_codes (g + ngroups x) (pc + 1 + length c + 1) ns1 r with
+          | inl er => inl er
+          | inr (cs, ns2) => inr (c :: cs, ns2)
+          end
+      end
+  end.
+Fixpoint gsem_alts (g : nat) (l : list expr) (st : sst) : list sst :=
+  match l with [] => [] | x :: r => sf x g st ++ gsem_alts (g + ngroups x) r st end.
+
+Lemma galt_codes_cons2 g pc ns x y r : galt_codes g pc ns (x :: y :: r) =
+  match cf x g (pc + 1) ns with
+  | inl er => inl er
+  | inr (c, ns1) => match galt_codes (g + ngroups x) (pc + 1 + length c + 1) ns1 (y :: r) with
+                    | inl er => inl er | inr (cs0, ns2) => inr (c :: cs0, ns2) end
+  end.
+Proof. reflexivity. Qed.
+Lemma galt_codes_ne g pc ns y r cds ns' : galt_codes g pc ns (y :: r) = inr (cds, ns') -> exists c' r', cds = c' :: r'.
 Proof.
-  intros IH g hc pc ns code ns' Hv Hnd HAt (Hw & Hz & Hac & Hrk) Hns Hng.
-  cbn [wfe] in Hw. cbn [acheck] in Hac. cbn [rok] in Hrk. destruct Hrk as [Hrk Hlb]. cbn [ngroups] in Hng.
+  destruct r as [|z r].
+  - cbn [galt_codes]. destruct (cf y g pc ns) as [|[? ?]]; [discriminate|]. inversion 1. eauto.
+  - rewrite galt_codes_cons2. destruct (cf y g (pc + 1) ns) as [|[? ?]]; [discriminate|].
+    destruct (galt_codes _ _ _ (z :: r)) as [|[? ?]]; [discriminate|]. inversion 1. eauto.
+Qed.
+
+Lemma gseg_alts : forall r x, Forall cf_ok (x :: r) -> forall g pc ns cds ns',
+  galt_codes g pc ns (x :: r) = inr (cds, ns') ->
+  nodeleg (alt_layout pc (pc + alt_size cds) cds) -> At pc (alt_layout pc (pc + alt_size cds) cds) ->
+  okl g (x :: r) -> NC <= ns -> 2 * (g + ngroups_list (x :: r)) <= NC ->
+  ns <= ns' /\
+  forall v K, ns' <= length (v_sl v) -> st_ok cs (sof v) ->
+  Gen pc (pc + alt_size cds) K (RunV pc v K) (map (R v ns ns') (gsem_alts g (x :: r) (sof v))).
+Proof.
+  induction r as [|y r IH]; intros x HF g pc ns cds ns' Hc Hnd HAt Hok Hns Hng.
+  - cbn [galt_codes] in Hc. destruct (cf x g pc ns) as [er|[c ns1]] eqn:Hx; [discriminate|].
+    inversion Hc; subst cds ns'. cbn [alt_layout alt_size] in *.
+    inversion HF; subst. apply okl_cons in Hok as [Hox _]. rewrite ngl_cons, ngl_nil in Hng.
+    destruct (H1 g pc ns c ns1 Hx Hnd HAt Hox Hns ltac:(lia)) as [M G]. split; auto.
+    intros v K Hsl Hokv. cbn [gsem_alts]. rewrite app_nil_r. apply G; auto.
+  - rewrite galt_codes_cons2 in Hc. destruct (cf x g (pc + 1) ns) as [er|[c ns1]] eqn:Hx; [discriminate|].
+    destruct (galt_codes (g + ngroups x) (pc + 1 + length c + 1) ns1 (y :: r)) as [er|[cds' ns2]] eqn:Hr; [discriminate|].
+    inversion Hc; subst cds ns'. clear Hc.
+    destruct (galt_codes_ne _ _ _ _ _ _ _ Hr) as (c' & r' & ->).
+    set (endpc := pc + alt_size (c :: c' :: r')) in *.
+    assert (Eend : endpc = (pc + 1 + length c + 1) + alt_size (c' :: r')) by (unfold endpc; rewrite alt_size_cons2; lia).
+    rewrite alt_layout_cons2 in Hnd, HAt.
+    apply nodeleg_cons in Hnd as [_ Hnd]. apply nodeleg_app in Hnd as [Hnc Hnd]. apply nodeleg_cons in Hnd as [_ Hnr].
+    apply At_cons in HAt as [Ha1 HAt]. apply At_app in HAt as [HAc HAt]. apply At_cons in HAt as [Ha2 HAr].
+    replace (S pc) with (pc + 1) in * by lia.
+    replace (S (pc + 1 + length c)) with (pc + 1 + length c + 1) in HAr by lia.
+    inversion HF as [|? ? Hsx HFr]; subst. apply okl_cons in Hok as [Hox Hor]. rewrite ngl_cons in Hng.
+    destruct (Hsx g (pc + 1) ns c ns1 Hx Hnc HAc Hox Hns ltac:(lia)) as [M1 G1].
+    rewrite Eend in Hnr, HAr.
+    destruct (IH y HFr _ _ _ _ _ Hr Hnr HAr Hor ltac:(lia) ltac:(lia)) as [M2 G2].
+    split; [lia|]. intros v K Hsl Hokv. cbn [gsem_alts]. rewrite map_app.
+    apply Gen_step. unfold RunV at 1. rewrite (step_split cx P MS pc _ _ _ K _ _ Ha1).
+    fold (alt_of (pc + 1 + length c + 1) v).
+    change (Run (pc + 1) (v_ix v) (v_sl v) (v_aux v) (alt_of (pc + 1 + length c + 1) v :: K))
+      with (RunV (pc + 1) v ([alt_of (pc + 1 + length c + 1) v] ++ K)).
+    apply Gen_app with (F := [alt_of (pc + 1 + length c + 1) v]).
+    + constructor; [|constructor]. cbn [alt_of a_pc]. lia.
+    + apply Gen_weaken with (p := pc + 1); [lia|].
+      eapply Gen_map with (q := pc + 1 + length c); [lia| |apply (Gen_R_widen _ _ _ _ v ns ns1 ns ns2); [lia|lia|apply G1; auto; lia]].
+      apply Forall2_same_map. intros a _ v' K1 HR. exists v'. split; auto.
+      apply steps_step. unfold RunV. apply step_jmp. exact Ha2.
+    + apply Gen_step. cbn [app Machine.mstep alt_of a_pc a_ix a_slots a_aux].
+      change (Run (pc + 1 + length c + 1) (v_ix v) (v_sl v) (v_aux v) K) with (RunV (pc + 1 + length c + 1) v K).
+      apply Gen_weaken with (p := pc + 1 + length c + 1); [lia|]. rewrite Eend.
+      apply (Gen_R_widen _ _ _ _ v ns1 ns2 ns ns2); [lia|lia|]. apply G2; auto.
+Qed.
+
+Fixpoint gseq_codes (g pc ns : nat) (l : list expr) : cerr + cres :=
+  match l with
+  | [] => inr ([], ns)
+  | x :: r =>
+      bindc (cf x g pc ns) (fun '(c, ns1) =>
+      bindc (gseq_codes (g + ngroups x) (pc + length c) ns1 r) (fun '(c2, ns2) =>
+      inr (c ++ c2, ns2)))
+  end.
+Fixpoint gsem_seq (g : nat) (l : list expr) (st : sst) : list sst :=
+  match l with [] => [st] | x :: r => flat_map (gsem_seq (g + ngroups x) r) (sf x g st) end.
+
+Hypothesis sf_ok : forall x g st st', oke g x -> st_ok cs st -> In st' (sf x g st) -> st_ok cs st'.
+
+Lemma gseg_seq : forall B, Forall cf_ok B -> forall g pc ns code ns',
+  gseq_codes g pc ns B = inr (code, ns') -> nodeleg code -> At pc code ->
+  okl g B -> NC <= ns -> 2 * (g + ngroups_list B) <= NC ->
+  segP pc code ns ns' (gsem_seq g B).
+Proof.
+  induction 1 as [|x r Hx Hr IH]; intros g pc ns code ns' Hv Hnd HAt Hokl Hns Hng; cbn [gseq_codes] in Hv.
+  - inversion Hv; subst. apply segP_nil.
+  - apply bindc_inr in Hv as ([c1 ns1] & H1 & Hv). apply bindc_inr in Hv as ([c2 ns2] & H2 & Hv).
+    inversion Hv; subst code ns'. clear Hv.
+    apply nodeleg_app in Hnd as [Hn1 Hn2]. apply At_app in HAt as [HA1 HA2].
+    apply okl_cons in Hokl as [Ho1 Ho2]. rewrite ngl_cons in Hng.
+    pose proof (Hx g pc ns c1 ns1 H1 Hn1 HA1 Ho1 Hns ltac:(lia)) as S1.
+    assert (M1 : ns <= ns1) by apply S1.
+    pose proof (IH _ _ _ _ _ H2 Hn2 HA2 Ho2 ltac:(lia) ltac:(lia)) as S2.
+    cbn [gsem_seq]. apply segP_app with (ns1 := ns1); auto.
+    intros st st' Hs Hin. exact (sf_ok x g st st' Ho1 Hs Hin).
+Qed.
+
+End GenLayout.
+
+(* the compiler's split of a look-behind over an alternation of different lengths *)
+Lemma visit_lb_split es g hc pc ns : const_size (Alt es) = false ->
+  visit bs (LookAround (Alt es) LookBehind) g hc pc ns =
+  match galt_codes (la_pos LookBehind) g pc ns es with
+  | inl er => inl er
+  | inr (cds, ns1) => inr (alt_layout pc (pc + alt_size cds) cds, ns1)
+  end.
+Proof.
+  intros Hc. cbn [visit]. change (hard bs g (LookAround (Alt es) LookBehind)) with true. rewrite andb_false_r.
+  rewrite Hc.
+  match goal with |- match ?f0 g pc ns es with _ => _ end = _ => set (f := f0) end.
+  assert (E : forall l g pc ns, f g pc ns l = galt_codes (la_pos LookBehind) g pc ns l).
+  { induction l as [|x r IH]; intros g0 pc0 ns0; [reflexivity|].
+    destruct r as [|y r]; [reflexivity|].
+    change (f g0 pc0 ns0 (x :: y :: r)) with
+      (match la_pos LookBehind x g0 (pc0 + 1) ns0 with
+       | inl er => inl er
+       | inr (c, ns1) => match f (g0 + ngroups x) (pc0 + 1 + length c + 1) ns1 (y :: r) with
+                         | inl er => inl er | inr (cs0, ns2) => inr (c :: cs0, ns2) end
+       end).
+    rewrite galt_codes_cons2.
+    destruct (la_pos LookBehind x g0 (pc0 + 1) ns0) as [|[c ns1]]; auto; try now rewrite IH. }
+  rewrite E. reflexivity.
+Qed.
+
+Lemma visit_lbn_split es g hc pc ns : const_size (Alt es) = false ->
+  visit bs (LookAround (Alt es) LookBehindNeg) g hc pc ns = gseq_codes (la_neg LookBehindNeg) g pc ns es.
+Proof.
+  intros Hc. cbn [visit]. change (hard bs g (LookAround (Alt es) LookBehindNeg)) with true. rewrite andb_false_r.
+  rewrite Hc.
+  match goal with |- ?f0 g pc ns es = _ => set (f := f0) end.
+  assert (E : forall l g pc ns, f g pc ns l = gseq_codes (la_neg LookBehindNeg) g pc ns l).
+  { induction l as [|x r IH]; intros g0 pc0 ns0; [reflexivity|].
+    change (f g0 pc0 ns0 (x :: r)) with
+      (bindc (la_neg LookBehindNeg x g0 pc0 ns0) (fun '(cd, ns1) =>
+       bindc (f (g0 + ngroups x) (pc0 + length cd) ns1 r) (fun '(c2, ns2) => inr (cd ++ c2, ns2)))).
+    cbn [gseq_codes]. destruct (la_neg LookBehindNeg x g0 pc0 ns0) as [|[cd ns1]]; cbn [bindc]; auto;
+    try now rewrite IH. }
+  apply E.
+Qed.
+
+Lemma lb_split_none es : forall g ix caps0, lb_found (Alt es) g ix caps0 = None -> lb_split (Alt es) g ix caps0 = [].
+Proof.
+  unfold lb_found, lb_split. induction es as [|x r IH]; intros g ix caps0 H; auto.
+  destruct (first_some _ (backs cx ix ix)) as [s|]; [discriminate|]. cbn [app]. apply IH. exact H.
+Qed.
+
+Lemma sem_lb_one x gx ix caps0 : wfe x -> zok x -> const_size x = true -> st_ok cs (ix, caps0) ->
+  sem cx (LookAround x LookBehind) fuel gx (ix, caps0) =
+  match first_some (fun j => first_ending (sem cx x fuel gx (j, caps0)) ix) (backs cx ix ix) with
+  | Some s => [(ix, snd s)] | None => [] end.
+Proof.
+  intros Hw Hz Hc Hok. rewrite sem_lb, lb_found_const, try_alt_const by auto. rewrite Hc, andb_false_r.
+  destruct (goback cx ix (min_size x) ix); auto; try (destruct (hd_error _); reflexivity).
+Qed.
+Lemma sem_lbn_one x gx ix caps0 : wfe x -> zok x -> const_size x = true -> st_ok cs (ix, caps0) ->
+  sem cx (LookAround x LookBehindNeg) fuel gx (ix, caps0) =
+  match first_some (fun j => first_ending (sem cx x fuel gx (j, caps0)) ix) (backs cx ix ix) with
+  | Some _ => [] | None => [(ix, caps0)] end.
+Proof.
+  intros Hw Hz Hc Hok. rewrite sem_lbn, lb_found_const, try_alt_const by auto.
+  destruct (goback cx ix (min_size x) ix); auto; try (destruct (hd_error _); reflexivity).
+Qed.
+
+Lemma sem_lb_split es g st : wfe_list es -> zok_list es -> const_size (Alt es) = false ->
+  (forall x, In x es -> const_size x = true) -> st_ok cs st ->
+  sem cx (LookAround (Alt es) LookBehind) fuel g st =
+  gsem_alts (fun x gx s => sem cx (LookAround x LookBehind) fuel gx s) g es st.
+Proof.
+  intros Hw Hz Hc Hall Hok. destruct st as [ix caps0]. rewrite sem_lb. cbn [is_alt]. rewrite Hc. cbn [negb andb].
+  assert (E : lb_split (Alt es) g ix caps0 =
+              gsem_alts (fun x gx s => sem cx (LookAround x LookBehind) fuel gx s) g es (ix, caps0)).
+  { unfold lb_split. clear Hc. revert g. induction es as [|x r IH]; intros g; [reflexivity|].
+    cbn [gsem_alts]. destruct Hw as [Hwx Hwr]. destruct Hz as [Hzx Hzr].
+    rewrite (sem_lb_one x g ix caps0 Hwx Hzx (Hall x (or_introl eq_refl)) Hok).
+    rewrite IH; auto. intros y Hy. apply Hall. right; auto. }
+  destruct (lb_found (Alt es) g ix caps0) eqn:Ef; [exact E|]. rewrite <- E. symmetry. now apply lb_split_none.
+Qed.
+
+Lemma sem_lbn_split es g st : wfe_list es -> zok_list es ->
+  (forall x, In x es -> const_size x = true) -> st_ok cs st ->
+  sem cx (LookAround (Alt es) LookBehindNeg) fuel g st =
+  gsem_seq (fun x gx s => sem cx (LookAround x LookBehindNeg) fuel gx s) g es st.
+Proof.
+  intros Hw Hz Hall Hok. destruct st as [ix caps0]. rewrite sem_lbn. unfold lb_found.
+  revert g. induction es as [|x r IH]; intros g; [reflexivity|].
+  cbn [gsem_seq]. destruct Hw as [Hwx Hwr]. destruct Hz as [Hzx Hzr].
+  rewrite (sem_lbn_one x g ix caps0 Hwx Hzx (Hall x (or_introl eq_refl)) Hok).
+  destruct (first_some _ (backs cx ix ix)) as [s|]; [reflexivity|].
+  cbn [flat_map]. rewrite app_nil_r. apply IH; auto. intros y Hy. apply Hall. right; auto.
+Qed.
+
+Lemma la_const la x gx pc ns code ns' : is_behind la = true ->
+  (la_pos la x gx pc ns = inr (code, ns') \/ la_neg la x gx pc ns = inr (code, ns')) -> const_size x = true.
+Proof.
+  intros Hb [H|H]; destruct la; try discriminate; unfold la_pos, la_neg, la_inner in H;
+    destruct (const_size x); auto; discriminate.
+Qed.
+
+Lemma la_pos_ok la x : (la = LookAhead \/ la = LookBehind) -> seg_stmt x ->
+  cf_ok (la_pos la) (fun x g => sem cx (LookAround x la) fuel g) x.
+Proof.
+  intros Hla IH g pc ns code ns' Hv Hnd HAt Hok Hns Hng.
+  eapply segP_ext; [|eapply seg_la_pos; eauto]. intros st Hst. cbv beta.
+  destruct Hok as (Hw & Hz & _). rewrite sem_la_eq; auto.
+  - destruct Hla as [->| ->]; reflexivity.
+  - destruct Hla as [->| ->]; auto. eapply (la_const LookBehind); eauto.
+Qed.
+Lemma la_neg_ok la x : (la = LookAheadNeg \/ la = LookBehindNeg) -> seg_stmt x ->
+  cf_ok (la_neg la) (fun x g => sem cx (LookAround x la) fuel g) x.
+Proof.
+  intros Hla IH g pc ns code ns' Hv Hnd HAt Hok Hns Hng.
+  eapply segP_ext; [|eapply seg_la_neg; eauto]. intros st Hst. cbv beta.
+  destruct Hok as (Hw & Hz & _). rewrite sem_la_eq; auto.
+  - destruct Hla as [->| ->]; reflexivity.
+  - destruct Hla as [->| ->]; auto. eapply (la_const LookBehindNeg); eauto.
+Qed.
+
+(* every alternative is constant-size, or its compilation would have failed *)
+Lemma galt_const : forall l g pc ns cds ns1, galt_codes (la_pos LookBehind) g pc ns l = inr (cds, ns1) ->
+  forall a, In a l -> const_size a = true.
+Proof.
+  induction l as [|x l IH]; intros g pc ns cds ns1 Hc a Ha; [destruct Ha|].
+  destruct l as [|y l].
+  - destruct Ha as [Ha|[]]. subst a. cbn [galt_codes] in Hc.
+    destruct (la_pos LookBehind x g pc ns) as [|[c n1]] eqn:E; [discriminate|].
+    eapply (la_const LookBehind); eauto.
+  - rewrite galt_codes_cons2 in Hc. destruct (la_pos LookBehind x g (pc + 1) ns) as [|[c n1]] eqn:E; [discriminate|].
+    destruct (galt_codes _ _ _ _ (y :: l)) as [|[cds' n2]] eqn:E2; [discriminate|].
+    destruct Ha as [Ha|Ha]; [subst a; eapply (la_const LookBehind); eauto|eapply IH; eauto].
+Qed.
+
+Lemma okl_of_alt g x r : oke g (Alt (x :: r)) -> okl g (x :: r).
+Proof.
+  intros (Hw & Hz & Hac & Hr). rewrite acheck_alt in Hac. rewrite wfe_alt in Hw. rewrite zok_alt in Hz. rewrite rok_alt in Hr.
+  unfold okl, oke. rewrite wfe_concat, zok_concat, acheck_concat, rok_concat. auto.
+Qed.
+
+Lemma seg_lookaround c la : seg_stmt c -> (forall es, c = Alt es -> Forall seg_stmt es) ->
+  seg_stmt (LookAround c la).
+Proof.
+  intros IH IHalts g hc pc ns code ns' Hv Hnd HAt (Hw & Hz & Hac & Hrk) Hns Hng.
+  cbn [wfe] in Hw. cbn [acheck] in Hac. cbn [rok] in Hrk. cbn [ngroups] in Hng.
+  destruct (match la, c with (LookBehind | LookBehindNeg), Alt _ => negb (const_size c) | _, _ => false end) eqn:Esplit.
+  { (* an alternation of different lengths under a look-behind: split *)
+    destruct c as [| | | | |es| | | | | | | | | | |]; try (destruct la; discriminate).
+    assert (Hcs : const_size (Alt es) = false) by (destruct la; try discriminate; now apply negb_true_iff in Esplit).
+    specialize (IHalts es eq_refl).
+    assert (Hzc : zok (Alt es)) by exact Hz.
+    assert (Hoc : oke g (Alt es)) by (repeat split; auto).
+    destruct es as [|x r]; [destruct Hoc as (_ & _ & Ha & _); discriminate|].
+    pose proof (okl_of_alt g x r Hoc) as Hokl. rewrite ngroups_alt in Hng.
+    rewrite wfe_alt in Hw. rewrite zok_alt in Hzc.
+    destruct la; try discriminate.
+    - (* LookBehind: an alternation of look-behinds *)
+      rewrite (visit_lb_split (x :: r) g hc pc ns Hcs) in Hv.
+      destruct (galt_codes (la_pos LookBehind) g pc ns (x :: r)) as [er|[cds ns1]] eqn:Hc; [discriminate|].
+      inversion Hv; subst code ns'. clear Hv.
+      assert (Hcf : Forall (cf_ok (la_pos LookBehind) (fun x g => sem cx (LookAround x LookBehind) fuel g)) (x :: r)).
+      { eapply Forall_impl; [|exact IHalts]. intros a Ha. apply la_pos_ok; auto. }
+      destruct (gseg_alts _ _ r x Hcf g pc ns cds ns1 Hc Hnd HAt Hokl Hns Hng) as [M G]. split; auto.
+      intros v K Hsl Hokv. rewrite alt_layout_length. rewrite sem_lb_split; auto.
+      eapply galt_const; eauto.
+    - (* LookBehindNeg: a sequence of negative look-behinds *)
+      rewrite (visit_lbn_split (x :: r) g hc pc ns Hcs) in Hv.
+      assert (Hcf : Forall (cf_ok (la_neg LookBehindNeg) (fun x g => sem cx (LookAround x LookBehindNeg) fuel g)) (x :: r)).
+      { eapply Forall_impl; [|exact IHalts]. intros a Ha. apply la_neg_ok; auto. }
+      assert (Hsf : forall x g st st', oke g x -> st_ok cs st ->
+                In st' (sem cx (LookAround x LookBehindNeg) fuel g st) -> st_ok cs st').
+      { intros a ga st st' (Hwa & _) Hs Hin. eapply (sem_ok (LookAround a LookBehindNeg)); eauto. }
+      eapply segP_ext; [|eapply (gseg_seq _ _ Hsf (x :: r) Hcf); eauto].
+      intros st Hst. symmetry. apply sem_lbn_split; auto.
+      clear - Hv. revert g pc ns code ns' Hv. generalize (x :: r) as l.
+      induction l as [|y l IHl]; intros g pc ns code ns' Hv a Ha; [destruct Ha|].
+      cbn [gseq_codes] in Hv. apply bindc_inr in Hv as ([c1 n1] & H1 & Hv). apply bindc_inr in Hv as ([c2 n2] & H2 & _).
+      destruct Ha as [<-|Ha]; [eapply (la_const LookBehindNeg); eauto|eapply IHl; eauto]. }
+  assert (Hlb : lb_alt_const c la).
+  { destruct la; try exact I; destruct c; try exact I; cbn [lb_alt_const]; now apply negb_false_iff in Esplit. }
   rewrite (visit_la c la g hc pc ns Hlb) in Hv. change (hard bs g (LookAround c la)) with true in Hv.
   rewrite andb_false_r in Hv.
   assert (Hzc : zok c).
@@ -1715,22 +2025,23 @@ Proof.
 Qed.
 
 (* ---------- arrow (B), stage 1 ---------- *)
-Theorem seg_all : forall e, seg_stmt e.
+Lemma seg_all_aux : forall e, seg_stmt e /\ (forall es, e = Alt es -> Forall seg_stmt es).
 Proof.
-  induction e using expr_ind'.
+  induction e using expr_ind'; (split; [|try (intros es0 E0; discriminate)]).
   - apply seg_empty.
   - apply seg_any.
   - apply seg_assertion.
   - apply seg_literal.
-  - now apply seg_concat.
-  - now apply seg_alt.
-  - now apply seg_group.
-  - now apply seg_lookaround.
-  - now apply seg_repeat.
+  - apply seg_concat. eapply Forall_impl; [|exact H]. intros a Ha; apply Ha.
+  - apply seg_alt. eapply Forall_impl; [|exact H]. intros a Ha; apply Ha.
+  - intros es0 E0. inversion E0; subst. eapply Forall_impl; [|exact H]. intros a Ha; apply Ha.
+  - apply seg_group, IHe.
+  - apply seg_lookaround; apply IHe.
+  - apply seg_repeat, IHe.
   - intros g hc pc ns code ns' Hv Hnd. exfalso. cbn [visit] in Hv.
     destruct (negb hc && negb (hard bs g (Delegate i s c k))); inversion Hv; subst code; cbn in Hnd; discriminate.
   - apply seg_backref.
-  - now apply seg_atomic.
+  - apply seg_atomic, IHe.
   - apply seg_keepout.
   - apply seg_contg.
   - apply seg_bec.
@@ -1738,5 +2049,8 @@ Proof.
   - intros g1 hc pc ns code ns' Hv Hnd. exfalso. cbn [visit] in Hv.
     destruct (negb hc && negb (hard bs g1 (SubroutineCall g))); [|discriminate]. inversion Hv; subst code; cbn in Hnd; discriminate.
 Qed.
+
+Theorem seg_all : forall e, seg_stmt e.
+Proof. intros e. apply seg_all_aux. Qed.
 
 End CC.
